@@ -110,9 +110,10 @@ def examine(ctx, case, count=False):
             k = next(k for k in sx if sx[k] != sy.get(k))
             errs.append((f"nontext-changed:{x.type}", f"{x.type}.{k}: {sx[k]!r} -> {sy.get(k)!r}"))
             continue
-        if x.type == "link_open" and x.info == "auto":
+        # an automatic link is recognised by either of its two marks (markup of the producing rule, info == "auto")
+        if x.type == "link_open" and (x.info == "auto" or x.markup in ("autolink", "linkify")):
             in_auto += 1
-        elif x.type == "link_close" and x.info == "auto":
+        elif x.type == "link_close" and (x.info == "auto" or x.markup in ("autolink", "linkify")):
             in_auto -= 1
         if x.type != "text" and x.type != "inline" and re.search(r"[\"'()+.\-]", x.content + str(x.attrs) + x.info):
             trig = True
@@ -179,7 +180,7 @@ def replay(ctx, case):
 
 
 DENSE = ["(Tm)", "(tM)", "(C)", "(R)", "(TM)", "(P)", "(p)", "\"", "'", "\"a\"", "'b'", "it's", "'tis", "\"'x'\"", "--", "---", "...", "....", "(c)", "(C)", "(tm)", "(r)", "(p)", "+-", ",,", "???", "!!!!", "?..", "!...", " -- ",
-         "a--b", "1-2", "`\"c\" -- 'd'`", "<http://a.b/'x'--y>", "<http://a.b/(c)(tm)...+->", "<x:(r)>", "<m@n.o>", "<b title=\"q\">", "</b>", "[\"l\"](u \"ti'tle\")", "![\"i\" ...](s '(c)')", "*\"e\"*", "**'s'**",
+         "a--b", "1-2", "`\"c\" -- 'd'`", "<http://a.b/'x'--y>", "<http://a.b/(c)(tm)...+->", "<x:(r)>", "<m@n.o>", "<o'brien@ex.com>", "<a--b@c.de>", "<x..y+-z@q.uv>", "<it's@me.org> <http://h.i/'j'>", "<b title=\"q\">", "</b>", "[\"l\"](u \"ti'tle\")", "![\"i\" ...](s '(c)')", "*\"e\"*", "**'s'**",
          "_a_\"", "\"_b_", "\n", "  \n", " ", "x", "y'", "'z", "http://x.y/\"q\"", "&quot;", "\\\"", "\\'", "&#39;", "&hellip;", "\\(c\\)", "(c\\)", "\\-\\-", "-\\-", "1'2\"",
          "'''", "\"\"\"", "«", "’", "”", "\xa0", "́", "'́", "[r]", "\"[r]\"", "| \"c\" |"]
 
